@@ -427,7 +427,15 @@ fn main() {
         let nm = *rng.pick(&[0usize, 1, 1, 1, 2, 3]);
         let mut labels = vec![];
         for _ in 0..nm {
-            labels.push(mutate_schema(&mut rng, &mut cmp));
+            // a mutation that does not apply to this schema returns "none": try a few others
+            let mut l = "none";
+            for _ in 0..4 {
+                l = mutate_schema(&mut rng, &mut cmp);
+                if l != "none" {
+                    break;
+                }
+            }
+            labels.push(l);
         }
         let mut perm: Vec<usize> = (0..base.type_kinds.len()).collect();
         if rng.chance(1, 3) && cmp.type_metadata.len() == cmp.type_kinds.len() && cmp.type_validations.len() == cmp.type_kinds.len() {
